@@ -433,6 +433,23 @@ def set_slice(st, obj, lo, hi, val):
     st.list_store(obj.z, et, seq_concat(st, seq_concat(st, left, v, es), right, es))
 
 
+def del_slice(st, obj, lo, hi):
+    """del l[lo:hi] on a list: the elements before lo followed by the elements from hi on (Python clamping of the
+    bounds; an empty or inverted range removes nothing)"""
+    E = _ex()
+    et = obj.t.args[0]
+    E.check_or_raise(st, is_real_list(obj.z), 'TypeError')
+    E.check_frame_contents(st, obj.z)
+    s = st.list_seq(obj.z, et)
+    l = clamp(st, lo, s.n, z3.IntVal(0))
+    h = clamp(st, hi, s.n, s.n)
+    h = z3.If(h < l, l, h)
+    es = T.sort_of(et)
+    head = seq_slice(st, s, es, z3.IntVal(0), l)
+    tail = seq_slice(st, s, es, h, s.n)
+    st.list_store(obj.z, et, seq_concat(st, head, tail, es))
+
+
 def del_item(st, obj, idx):
     E = _ex()
     if obj.t.kind == 'list':
